@@ -9,6 +9,7 @@ type isStandardClass interface {
 
 	mergeSupers() bool
 	slotDefMap() map[string]*SlotDef
+	allSlotsDefs() []*SlotDef
 	initArgDefs(name string) []*SlotDef
 	initFormMap() map[string]*SlotDef
 	defaultsMap() map[string]slip.Object
